@@ -161,7 +161,11 @@ class Server(object):
         self._check_close_code(reply)
 
     def _encrypt_session(self):
-        if not self.io.encrypt_socket_server(self.context):
+        try:
+            with Timeout(self.command_timeout):
+                if not self.io.encrypt_socket_server(self.context):
+                    return False
+        except Timeout:
             return False
         self._call_custom_handler('TLSHANDSHAKE')
         self._call_custom_handler('TLSHANDSHAKE2', self.io.socket)
@@ -337,7 +341,8 @@ class Server(object):
         assert auth is not None
 
         try:
-            result = auth.server_attempt(arg)
+            with Timeout(self.command_timeout):
+                result = auth.server_attempt(arg)
         except ValueError:
             bad_arguments.send(self.io)
             return
